@@ -879,9 +879,16 @@ class _Walker:
     def local_callable(self, name, c, args, kws, allargs, fresh):
         key = (self.f.name, name)
         decl = DECLARED_CALLABLES.get(key)
-        if decl is None and name in self.f.params + self.f.kwonly:
-            # a callable parameter of a private helper: every callable its call sites pass is applied
-            sites = self.e.param_bindings(self.f, name)
+        if decl is None:
+            sites = None
+            if name in self.f.params + self.f.kwonly:
+                # a callable parameter of a private helper: every callable its call sites pass is applied
+                sites = self.e.param_bindings(self.f, name)
+            else:
+                # a local bound to functions named in the function itself (`f = numpy.sin`, `for bound, f in TABLE:`)
+                cands = self._local_fn_candidates(name)
+                if cands:
+                    sites = [(self.f, e) for e in cands]
             if sites:
                 out = None
                 for caller, expr in sites:
@@ -918,6 +925,66 @@ class _Walker:
         if res == 'alias-args':
             return allargs
         return fresh if res == 'fresh' else EMPTY
+
+    def _local_fn_candidates(self, name):
+        """expressions (dotted names) a local callable may be bound to, or None if some binding is not of a
+        recognised form: `name = a.b`, `for .., name, .. in SEQ` with SEQ a literal (or a local bound once to a
+        literal) of tuples holding dotted names at that position"""
+        out = []
+        fn = self.f.node
+        literals = {}
+        counts = {}
+        for st in walk_no_nested(fn):
+            if isinstance(st, ast.Assign) and len(st.targets) == 1 and isinstance(st.targets[0], ast.Name):
+                counts[st.targets[0].id] = counts.get(st.targets[0].id, 0) + 1
+                if isinstance(st.value, (ast.Tuple, ast.List)):
+                    literals[st.targets[0].id] = st.value
+
+        def position(t):
+            if isinstance(t, ast.Name):
+                return () if t.id == name else None
+            if isinstance(t, (ast.Tuple, ast.List)):
+                for i, e in enumerate(t.elts):
+                    p = position(e)
+                    if p is not None:
+                        return (i,) + p
+            return None
+
+        for st in walk_no_nested(fn):
+            if isinstance(st, ast.Assign):
+                for t in st.targets:
+                    pos = position(t)
+                    if pos is None:
+                        continue
+                    if pos == () and dotted_name(st.value) is not None:
+                        out.append(st.value)
+                    else:
+                        return None
+            elif isinstance(st, (ast.AugAssign, ast.AnnAssign)) and position(st.target) is not None:
+                return None
+            elif isinstance(st, ast.For):
+                pos = position(st.target)
+                if pos is None:
+                    continue
+                it = st.iter
+                if isinstance(it, ast.Call) and isinstance(it.func, ast.Name) and it.func.id == 'enumerate' and len(it.args) == 1 and pos and pos[0] == 1:
+                    it, pos = it.args[0], pos[1:]
+                if isinstance(it, ast.Name) and counts.get(it.id) == 1 and it.id in literals:
+                    it = literals[it.id]
+                if not isinstance(it, (ast.Tuple, ast.List)):
+                    return None
+                for el in it.elts:
+                    cur = el
+                    for i in pos:
+                        if not (isinstance(cur, (ast.Tuple, ast.List)) and i < len(cur.elts)):
+                            return None
+                        cur = cur.elts[i]
+                    if dotted_name(cur) is None:
+                        return None
+                    out.append(cur)
+            elif isinstance(st, (ast.With, ast.comprehension)) and False:
+                pass
+        return out or None
 
     def _isinstance_facts(self, test):
         """`isinstance(x, C)` / `a or b` of those -> {x: {C, ...}} (positive branch only)"""
